@@ -78,16 +78,16 @@ class OracleOb(StmtOb):
     distinct_outputs = False
     target_apart = False
 
-    def __init__(self, key, st, dialect="ansi", family="tabs", budget=5, seed=0, length=2, lengths=None):
+    def __init__(self, key, st, dialect="ansi", family="tabs", budget=5, seed=0, length=2, lengths=None, quotes=None):
         if family == "cols":
             st = slotify_columns(st)
-        super().__init__(key, st, dialect)
+        super().__init__(key, st, dialect, quotes=quotes)
         self.family, self.length, self.lengths = family, length, lengths
         self.free_kinds = ("k", "l") if family == "cols" else ("t", "s", "a", "d", "c")
         cand = [x for x in self.slots if x not in reentrant_slots(st)]
         prio = {"tabs": self.priority, "cols": ("k",), "locals": ("d", "c", "a")}[family]
         self.free = choose_free(cand, self.free_kinds, budget, prio, "%s/%s/%s" % (self.pid, seed, key))
-        self.key = "%s/%s/len%s@%s" % (family, key, length if not lengths else "mix", dialect)
+        self.key = "%s/%s/len%s@%s%s" % (family, key, length if not lengths else "mix", dialect, "/quoted" if quotes else "")
 
     def names(self, prefix="n"):
         lens = None
